@@ -109,12 +109,14 @@ Theorem C06_peer_hashes_append_only_and_anchored :
 Proof. exact HashesUpdateProofs.update_latest_extends. Qed.
 Print Assumptions C06_peer_hashes_append_only_and_anchored.
 
-(* the hashes cached between two finalized check points only grow at their end, never beyond the next check point, and
-   start right after the lower check point with that check point as parent *)
-Theorem C06_cached_hashes_append_only_and_anchored :
+(* the hashes cached between two finalized check points: an accepted message only appends, makes the list reach the upper
+   check point exactly, and the hash stored for the check point block IS the finalized check point - nothing between two
+   check points is trusted on one peer's word (the gate added by the repair of the unanchored cached hashes) *)
+Theorem C06_cached_hashes_anchored_at_both_check_points :
   forall cn nn ccp ncp cached start parent hs cached' next,
     cn < start -> start <= nn -> HashesUpdate.len cached <= nn - cn ->
     HashesUpdate.update_cached cn nn ccp ncp cached start parent hs = Ok (inr (cached', next)) ->
-    (exists ext, cached' = cached ++ ext) /\ HashesUpdate.len cached' <= nn - cn /\ (cached = [] -> start = cn + 1 /\ parent = ccp).
+    (exists ext, cached' = cached ++ ext) /\ HashesUpdate.len cached' = nn - cn /\
+    HashesUpdate.nthN cached' (nn - cn - 1) = Some ncp /\ (cached = [] -> start = cn + 1 /\ parent = ccp).
 Proof. exact HashesUpdateProofs.update_cached_extends. Qed.
-Print Assumptions C06_cached_hashes_append_only_and_anchored.
+Print Assumptions C06_cached_hashes_anchored_at_both_check_points.
